@@ -455,8 +455,11 @@ class Module(HasAccessibles):
             self.commands[name] = accessible
         if cfg is not None:
             try:
-                for propname, propvalue in cfg.items():
-                    if propname in {'value', 'default', 'constant'}:
+                # apply the overrides of datatype properties first: a value, default or
+                # constant given together with them has to be checked against the result
+                valuekeys = {'value', 'default', 'constant'}
+                for propname, propvalue in sorted(cfg.items(), key=lambda kv: kv[0] in valuekeys):
+                    if propname in valuekeys:
                         # these properties have ValueType(), but should be checked for datatype
                         accessible.datatype(cfg[propname])
                     accessible.setProperty(propname, propvalue)
